@@ -86,7 +86,7 @@ def run(check):
     check.rule = ("multi-output programs (success path plus error-output / alt / crashed / deploy_failed / disabled paths); outcome vectors over "
                   "{success,error,alt,crash,deployfail} enumerated for 6 small shapes (exhaustive in thorough, 25 per shape in quick) plus generated "
                   "programs of all shapes, some with an output field / wait-optional field / step input that cannot be evaluated over the produced values (such an output is "
-                  "not producible), workflow inputs of every type flowing into outputs and step inputs, programs in which only the stuck-workflow check can tell that "
+                  "not producible), optional / one-of / or-disabled members in outputs, an engine configured to log outputs to a slow target, workflow inputs of every type flowing into outputs and step inputs, programs in which only the stuck-workflow check can tell that "
                   "nothing is producible; completion order varied by random delay plans; oracle: returned (id,data,err) must lie in the reference's "
                   "allowed set; non-trivial = at least one step does not succeed or >=2 outputs declared; distinct = (shape, outcome vector, returned id)")
     check.assumptions = ["reference semantics vlib/ref.py (Appendix B of DESIGN.md)", "error message texts are not compared"]
@@ -154,6 +154,39 @@ def run(check):
             ids["several_producible"] = ids.get("several_producible", 0) + 1
         check.sample({"case": cid, "shape": g["shape"], "outcome": g["outcome"], "producible": sorted(exp["avail"]), "returned": run.get("out_id"), "err_type": run.get("err_type")})
 
+    # optional, one-of and or-disabled members in the outputs (the programs of the tag check, read through the result rules)
+    from . import c15
+    for j in range(check.pick(80, 600)):
+        g, trig = c15.build(j, check)
+        if "direct" not in g["program"].outputs:
+            continue
+        inp0 = ref.normalise_input(g["program"].input_schema, g["input"])
+        r0 = ref.RefSem(g["program"], g["scripts"], inp0).result()
+        if not r0["avail"] and r0["pending"]:
+            continue
+        opts2 = {"triggers": trig} if trig else {}
+        if g.get("logged_outputs"):
+            opts2["logged_outputs"] = g["logged_outputs"]
+        case, sem = runfam.build_case("c03-tg%04d" % j, g, **opts2)
+        if mon.late_stage_waits(sem):
+            continue  # the known finding about members waiting for stages of steps that can never start (see C15)
+        items.append((case, sem, g))
+    # the engine is configured to log `success` outputs and its log target is slow, while other steps complete
+    for j in range(check.pick(60, 400)):
+        rng = random.Random(derive_seed(check.seed, "c03-logged", j))
+        g = runfam.gen_terminating(check.seed, "c03-lg%d" % j, p_fail=0.1, outcomes=["error", "crash"], shape=rng.choice(["fan_in", "diamond", "chain", "fan_out", "multiref"]))
+        if g is None:
+            continue
+        for src in list(g["scripts"]):
+            if rng.random() < 0.5:
+                ds = g["scripts"][src].get("deploys") or [{}, {}]
+                while len(ds) < 2:
+                    ds.append({})
+                ds[1] = dict(ds[1], delay_ms=rng.choice([5, 15, 30]))
+                g["scripts"][src]["deploys"] = ds
+        g["shape"] += "/slow-output-log"
+        case, sem = runfam.build_case("c03-lo%04d" % j, g, logged_outputs={"success": rng.choice([20, 40])})
+        items.append((case, sem, g))
     # workflow input of every type flowing into outputs and step inputs: what expressions see is the serialized form of the
     # validated input (a pattern is its text, typed lists and maps are plain lists and maps)
     from ..model import InputSchema, In
